@@ -1,7 +1,7 @@
 //! Verification hooks (feature "verif"): thin pass-throughs to private items.
 //! Nothing here is compiled unless the `verif` feature is on.
 use crate::controls::{Control, RawControl};
-use crate::controls_impl::{build_tag, parse_controls};
+use crate::controls_impl::build_tag;
 use crate::exop::Exop;
 use crate::filter::Unescaper;
 use crate::ldap::Ldap;
@@ -38,10 +38,6 @@ pub fn result_ext(t: Tag) -> (LdapResult, Exop, Option<Vec<u8>>) {
 
 pub fn controls_build_tag(rc: RawControl) -> StructureTag {
     build_tag(rc)
-}
-
-pub fn controls_parse(t: StructureTag) -> Vec<Control> {
-    parse_controls(t)
 }
 
 pub fn ldap_with_ids(last: i32, inuse: HashSet<i32>) -> Ldap {
